@@ -288,7 +288,6 @@ Qed.
 (* with a one-character separator, stripping the character set is stripping the separator *)
 Section OneChar.
   Variable c : N.
-  Let sep : str := [c].
 
   Lemma lstrip_cons y t : lstrip (y :: t) [c] = if N.eqb y c then lstrip t [c] else y :: t.
   Proof. cbn [lstrip memN existsb]. rewrite orb_false_r. reflexivity. Qed.
